@@ -74,3 +74,15 @@ Example C15_round_trip_instance :
   fold_left add_header [([72;111;115;116], [104]); ([88], [32;121;32]); ([120], [122])] []
     = [([104;111;115;116], [104]); ([120], [122])].
 Proof. vm_compute. split; reflexivity. Qed.
+
+(* ... and for names and values that neither start nor end with a blank, the header map holds
+   exactly the lower-cased name and the value as written *)
+Theorem C15_round_trip_of_clean_headers :
+  forall k v, k <> [] -> is_white (hd 0 k) = false -> is_white (last k 0) = false ->
+              v <> [] -> is_white (hd 0 v) = false -> is_white (last v 0) = false ->
+  forall acc, add_header acc (k, v) = map_set acc (lower_case k) v.
+Proof.
+  intros k v K1 K2 K3 V1 V2 V3 acc. unfold add_header. cbn [fst snd].
+  destruct (header_name_and_value_come_back k v K1 K2 K3 V1 V2 V3) as [A B]. rewrite A, B. reflexivity.
+Qed.
+Print Assumptions C15_round_trip_of_clean_headers.
